@@ -32,6 +32,7 @@ def quick():
     c.append(Cfg("two_overlap_weights_one", (DS("ds1", T2, (0.0, 1.0), weight=True), DS("ds2", T3, (1.0, 2.0))), groups={"default": (True, VP)}))
     c.append(Cfg("two_labels_prefix", (DS("ds1", T2, (0.0, 1.0), scale=True), DS("ds10", T2, (1.0, 2.0), scale=True)), groups={"default": (True, VP)}))
     c.append(Cfg("two_labels_substr", (DS("ab", T2, (0.0, 1.0)), DS("a", T3, (1.0, 2.0), weight=True)), groups={"default": (True, VP)}))
+    c.append(Cfg("labels_concatenations_coincide", (DS("ab", T2, (0.0,), scale=True), DS("c", T3, (0.0,)), DS("a", T3, (1.0,)), DS("bc", T2, (1.0,), scale=True)), groups={"default": (True, VP)}))
     # three datasets, partially overlapping, distinct scales (positions in the group differ per index)
     c.append(
         Cfg(
